@@ -58,6 +58,9 @@ pub use sauce_mod::*;
 mod crc;
 pub use crc::*;
 
+#[cfg(icy_engine_verif)]
+pub mod verif_hooks;
+
 mod terminal_state;
 pub use terminal_state::*;
 
